@@ -49,16 +49,18 @@ static void describe(int type, uint64_t bits, char *out, size_t cap)
   }
 }
 
+static const char *set_group, *get_group;   /* spelling of the section argument (NULL, "", "[]" all mean group-less) */
 static econf_err do_set(econf_file *f, const char *key, int type, uint64_t bits)
 {
+  const char *G = set_group;
   switch (type) {
-  case T_I32: return econf_setIntValue(f, NULL, key, (int32_t)(uint32_t)bits);
-  case T_U32: return econf_setUIntValue(f, NULL, key, (uint32_t)bits);
-  case T_F32: { float v; uint32_t b = (uint32_t)bits; memcpy(&v, &b, 4); return econf_setFloatValue(f, NULL, key, v); }
-  case T_I64: return econf_setInt64Value(f, NULL, key, (int64_t)bits);
-  case T_U64: return econf_setUInt64Value(f, NULL, key, bits);
-  case T_F64: { double v; memcpy(&v, &bits, 8); return econf_setDoubleValue(f, NULL, key, v); }
-  default: return econf_setBoolValue(f, NULL, key, bool_text[bits % (uint64_t)nbool]);
+  case T_I32: return econf_setIntValue(f, G, key, (int32_t)(uint32_t)bits);
+  case T_U32: return econf_setUIntValue(f, G, key, (uint32_t)bits);
+  case T_F32: { float v; uint32_t b = (uint32_t)bits; memcpy(&v, &b, 4); return econf_setFloatValue(f, G, key, v); }
+  case T_I64: return econf_setInt64Value(f, G, key, (int64_t)bits);
+  case T_U64: return econf_setUInt64Value(f, G, key, bits);
+  case T_F64: { double v; memcpy(&v, &bits, 8); return econf_setDoubleValue(f, G, key, v); }
+  default: return econf_setBoolValue(f, G, key, bool_text[bits % (uint64_t)nbool]);
   }
 }
 
@@ -70,15 +72,15 @@ static int do_get_check1(econf_file *f, const char *key, int type, uint64_t bits
   const char *gn = def ? "defaulted getter: " : "";
   errno = ERANGE;   /* a getter must not depend on what an earlier call left in errno (ERANGE is the value the getters test for) */
   switch (type) {
-  case T_I32: { int32_t v = 0, want = (int32_t)(uint32_t)bits; rc = def ? econf_getIntValueDef(f, NULL, key, &v, want == -7 ? 7 : -7) : econf_getIntValue(f, NULL, key, &v); if (rc || v != want) { snprintf(msg, cap, "%src=%d got %" PRId32, gn, (int)rc, v); return 1; } return 0; }
-  case T_U32: { uint32_t v = 0; rc = def ? econf_getUIntValueDef(f, NULL, key, &v, (uint32_t)bits == 7 ? 8 : 7) : econf_getUIntValue(f, NULL, key, &v); if (rc || v != (uint32_t)bits) { snprintf(msg, cap, "%src=%d got %" PRIu32, gn, (int)rc, v); return 1; } return 0; }
-  case T_F32: { float v = 0, w; uint32_t b = (uint32_t)bits, g; memcpy(&w, &b, 4); rc = def ? econf_getFloatValueDef(f, NULL, key, &v, w == 7.5f ? 8.5f : 7.5f) : econf_getFloatValue(f, NULL, key, &v); memcpy(&g, &v, 4);
+  case T_I32: { int32_t v = 0, want = (int32_t)(uint32_t)bits; rc = def ? econf_getIntValueDef(f, get_group, key, &v, want == -7 ? 7 : -7) : econf_getIntValue(f, get_group, key, &v); if (rc || v != want) { snprintf(msg, cap, "%src=%d got %" PRId32, gn, (int)rc, v); return 1; } return 0; }
+  case T_U32: { uint32_t v = 0; rc = def ? econf_getUIntValueDef(f, get_group, key, &v, (uint32_t)bits == 7 ? 8 : 7) : econf_getUIntValue(f, get_group, key, &v); if (rc || v != (uint32_t)bits) { snprintf(msg, cap, "%src=%d got %" PRIu32, gn, (int)rc, v); return 1; } return 0; }
+  case T_F32: { float v = 0, w; uint32_t b = (uint32_t)bits, g; memcpy(&w, &b, 4); rc = def ? econf_getFloatValueDef(f, get_group, key, &v, w == 7.5f ? 8.5f : 7.5f) : econf_getFloatValue(f, get_group, key, &v); memcpy(&g, &v, 4);
     if (rc || !(g == b || (isnan(v) && isnan(w)))) { snprintf(msg, cap, "%src=%d got bits 0x%08x (%.9g)", gn, (int)rc, g, (double)v); return 1; } return 0; }
-  case T_I64: { int64_t v = 0; rc = def ? econf_getInt64ValueDef(f, NULL, key, &v, (int64_t)bits == -7 ? 7 : -7) : econf_getInt64Value(f, NULL, key, &v); if (rc || v != (int64_t)bits) { snprintf(msg, cap, "%src=%d got %" PRId64, gn, (int)rc, v); return 1; } return 0; }
-  case T_U64: { uint64_t v = 0; rc = def ? econf_getUInt64ValueDef(f, NULL, key, &v, bits == 7 ? 8 : 7) : econf_getUInt64Value(f, NULL, key, &v); if (rc || v != bits) { snprintf(msg, cap, "%src=%d got %" PRIu64, gn, (int)rc, v); return 1; } return 0; }
-  case T_F64: { double v = 0, w; uint64_t g; memcpy(&w, &bits, 8); rc = def ? econf_getDoubleValueDef(f, NULL, key, &v, w == 7.5 ? 8.5 : 7.5) : econf_getDoubleValue(f, NULL, key, &v); memcpy(&g, &v, 8);
+  case T_I64: { int64_t v = 0; rc = def ? econf_getInt64ValueDef(f, get_group, key, &v, (int64_t)bits == -7 ? 7 : -7) : econf_getInt64Value(f, get_group, key, &v); if (rc || v != (int64_t)bits) { snprintf(msg, cap, "%src=%d got %" PRId64, gn, (int)rc, v); return 1; } return 0; }
+  case T_U64: { uint64_t v = 0; rc = def ? econf_getUInt64ValueDef(f, get_group, key, &v, bits == 7 ? 8 : 7) : econf_getUInt64Value(f, get_group, key, &v); if (rc || v != bits) { snprintf(msg, cap, "%src=%d got %" PRIu64, gn, (int)rc, v); return 1; } return 0; }
+  case T_F64: { double v = 0, w; uint64_t g; memcpy(&w, &bits, 8); rc = def ? econf_getDoubleValueDef(f, get_group, key, &v, w == 7.5 ? 8.5 : 7.5) : econf_getDoubleValue(f, get_group, key, &v); memcpy(&g, &v, 8);
     if (rc || !(g == bits || (isnan(v) && isnan(w)))) { snprintf(msg, cap, "%src=%d got bits 0x%016" PRIx64 " (%.17g)", gn, (int)rc, g, v); return 1; } return 0; }
-  default: { bool v = false; int want = bool_truth[bits % (uint64_t)nbool]; rc = def ? econf_getBoolValueDef(f, NULL, key, &v, !want) : econf_getBoolValue(f, NULL, key, &v); if (rc || (int)v != want) { snprintf(msg, cap, "%src=%d got %d", gn, (int)rc, (int)v); return 1; } return 0; }
+  default: { bool v = false; int want = bool_truth[bits % (uint64_t)nbool]; rc = def ? econf_getBoolValueDef(f, get_group, key, &v, !want) : econf_getBoolValue(f, get_group, key, &v); if (rc || (int)v != want) { snprintf(msg, cap, "%src=%d got %d", gn, (int)rc, (int)v); return 1; } return 0; }
   }
 }
 static int do_get_check(econf_file *f, const char *key, int type, uint64_t bits, char *msg, size_t cap)
@@ -191,6 +193,34 @@ static void families_double(void)
       for (int m = 0; m < nm; m += (mc_opt.thorough ? 1 : 7)) value(T_F64, ((uint64_t)sign << 63) | (e << 52) | mant[m]);
 }
 
+static void creation_case(int type, int a, int b, int viafile)
+{
+  static const char *SP[3] = { NULL, "", "[]" }, *SPN[3] = { "NULL", "\"\"", "\"[]\"" };
+  econf_file *w = NULL, *r = NULL; char msg[200], m2[400], path[400];
+  uint64_t bits = type == T_BOOL ? 0 : 0x4048f5c3u;    /* 3.14f / an ordinary integer */
+  int tag = 100 + (((a * 3 + b) * 2 + viafile) * 8) + type;
+  econf_newKeyFile(&w, '=', '#');
+  set_group = SP[a]; get_group = SP[b];
+  econf_err rc = do_set(w, "created", type, bits);
+  econf_file *q = w;
+  if (!rc && viafile) { rc = econf_writeFile(w, mc_work, "sp.conf"); snprintf(path, sizeof path, "%s/sp.conf", mc_work); if (!rc) rc = econf_readFile(&r, path, "=", "#"); q = r; }
+  msg[0] = 0;
+  if (rc) snprintf(m2, sizeof m2, "section spelled %s in the setter: %s failed with %d", SPN[a], viafile ? "set/write/read" : "set", (int)rc);
+  else if (do_get_check(q, "created", type, bits, msg, sizeof msg)) snprintf(m2, sizeof m2, "setter section %s, getter section %s%s: %s", SPN[a], SPN[b], viafile ? ", after write/read" : "", msg);
+  else m2[0] = 0;
+  if (m2[0]) {
+    char d[128]; describe(type, bits, d, sizeof d);
+    snprintf(mc_st->cur_id, sizeof mc_st->cur_id, "b0t%d:0", tag);
+    mc_case_failed = 0;
+    char sig[300]; snprintf(sig, sizeof sig, "creation %s %s %s %d", TN[type], SPN[a], SPN[b], viafile);
+    mc_fail(sig, "key created through a spelling of no-section: %s does not come back: %s", d, m2);
+  }
+  if (w) econf_freeFile(w);
+  if (r) econf_freeFile(r);
+  set_group = get_group = NULL;
+  mc_st->executed++; mc_st->compared++; mc_st->nontrivial++;
+}
+
 static void gen(void) { mc_tag = mc_tag; (void)mc_choose(65536); (void)mc_choose(65536); (void)mc_choose(65536); (void)mc_choose(65536); }
 static void exec_one(void)
 {
@@ -206,7 +236,14 @@ int main(int argc, char **argv)
   if (mc_opt.param[2]) stride = (uint64_t)mc_opt.param[2];
   build_bools();
   econf_newKeyFile(&kf, '=', '#');
-  if (mc_opt.case_id) return mc_replay(gen, exec_one, mc_opt.case_id);
+  if (mc_opt.case_id) {
+    const char *t = strchr(mc_opt.case_id, 't'); int tag = t ? atoi(t + 1) : 0;
+    if (tag >= 100) { int v = tag - 100, type = v % 8; v /= 8; printf("CASE %s\n", mc_opt.case_id); creation_case(type, (v / 2) / 3, (v / 2) % 3, v % 2); printf(mc_st->failures ? "RESULT: FAIL\n" : "RESULT: PASS\n"); return mc_st->failures ? 1 : 0; }
+    return mc_replay(gen, exec_one, mc_opt.case_id);
+  }
+  /* the key is CREATED by the typed setter through every spelling of "no section" and fetched through every spelling */
+  if (mc_opt.shard == 0)
+    for (int type = 0; type < T_N; type++) for (int a = 0; a < 3; a++) for (int b = 0; b < 3; b++) for (int viafile = 0; viafile < 2; viafile++) creation_case(type, a, b, viafile);
   /* 32-bit spaces */
   for (int type = T_I32; type <= T_F32; type++) {
     if (exhaustive32) {
